@@ -91,3 +91,32 @@ package regclient
 //@   infunc \)\.imageCopyOpt$
 //@   requires children-done: $spawned == $received && $allNil
 //@   requires writes-target: r == caller.refTgt
+
+// side condition of the channel rule: every goroutine body spawned by imageCopyOpt sends exactly
+// one value on waitCh on every path (index entry, config, layer, referrer, digest-tag tasks)
+//@ ghost $sent int
+//@ func (*RegClient).imageCopyOpt$3
+//@   prop C04
+//@   entry-assume $sent == 0
+//@   on-send waitCh: $sent = $sent + 1
+//@   ensures one-send: $sent == 1
+//@ func (*RegClient).imageCopyOpt$4
+//@   prop C04
+//@   entry-assume $sent == 0
+//@   on-send waitCh: $sent = $sent + 1
+//@   ensures one-send: $sent == 1
+//@ func (*RegClient).imageCopyOpt$5
+//@   prop C04
+//@   entry-assume $sent == 0
+//@   on-send waitCh: $sent = $sent + 1
+//@   ensures one-send: $sent == 1
+//@ func (*RegClient).imageCopyOpt$6
+//@   prop C04
+//@   entry-assume $sent == 0
+//@   on-send waitCh: $sent = $sent + 1
+//@   ensures one-send: $sent == 1
+//@ func (*RegClient).imageCopyOpt$7
+//@   prop C04
+//@   entry-assume $sent == 0
+//@   on-send waitCh: $sent = $sent + 1
+//@   ensures one-send: $sent == 1
